@@ -147,13 +147,21 @@ def run(ctx):
     lin = linear_cases(ctx, rng)
     lm = lm_cases(ctx, rng, 500 if ctx.tier == "quick" else 5000)
     judge(ctx, [lin, lm])
+    st = ctx.notes.pop("_stat", [])
+    ctx.notes["lm_runs_returning_ok"] = sum(x[1] for x in st)
+    ctx.notes["lm_runs_accuracy_judged_well_conditioned"] = sum(x[3] for x in st)
     ctx.notes["linear_cases"] = len(lin)
     ctx.notes["lm_cases"] = len(lm)
     ctx.rule = ("linear_fit: every permutation of integer data on three small grids + seeded real/complex data of 3-60 points (exactly linear "
                 "and arbitrary) + mismatched lengths; LM: polynomial / trigonometric bases (1-4 parameters, noise-free and noisy) and "
                 "exp / gaussian / logistic models with starts within 20% of the truth, tol 1e-12..1e-6, damping 0.1-5, multiplier 1.2-3, "
                 "both variants, invalid settings; non-trivial = >= 3 points (linear) / >= 2 parameters (LM)")
-    ctx.assumptions += ["LM accuracy bound %s*(1+|p|)*(sqrt(tol)+1e-7): the stopping rule is on the change of the residual sum of squares" % KF,
+    ctx.assumptions += ["LM accuracy bound %s*(1+|p|)*(sqrt(tol/lam)+1e-7), lam = min(1, proven lower bound of lambda_min(J^T J) at the target); "
+                        "judged only for designs with lam >= 1e-3 (the property's 'well-conditioned designs'): the stopping rule is on the "
+                        "change of the residual sum of squares" % KF,
+                        "a curve_fit failure is attributed to the known jac_finite_differences sign finding only when the same case passes "
+                        "the whole contract through the twin (optimize/mod.rs of the tree under test with that one statement corrected, built by "
+                        "harness/build.rs); otherwise it is reported as a fresh violation",
                         "linear least-squares reference by Gaussian elimination of the normal equations in TLA+ (well-conditioned designs only)"]
 
 
